@@ -179,7 +179,7 @@ func (s *Solver) getProc(stage int) *proc {
 		s.procs = append(s.procs, nil)
 	}
 	if p := s.procs[stage]; p != nil && !p.dead {
-		if p.nq < 1000 || stage == 0 || stage == 3 {
+		if p.nq < 1000 || stage == 0 || stage == 3 || stage == 6 {
 			return p
 		}
 		// cvc5 in incremental mode slows down as definitions and lemmas accumulate: recycle it
@@ -200,6 +200,12 @@ func (s *Solver) getProc(stage int) *proc {
 		// second chance with a long limit: time limits are wall-clock, so a loaded machine turns
 		// a 4 s query into an "unknown" on every short-limit back end
 		p = &proc{name: "z3-new-long", argv: []string{"z3-new", "-in", "-t:" + strconv.Itoa(6*s.Timeout[3])}}
+	case 6:
+		p = &proc{name: "z3-short", argv: []string{"z3", "-in", "-t:3000"}}
+	case 7:
+		p = &proc{name: "cvc5-short", argv: []string{"cvc5", "--incremental", "--lang=smt2", "--tlimit-per=3000"}}
+	case 8:
+		p = &proc{name: "cvc5-bvint-short", argv: []string{"cvc5", "--incremental", "--lang=smt2", "--solve-bv-as-int=sum", "--tlimit-per=3000"}}
 	case 5:
 		p = &proc{name: "cvc5-long", argv: []string{"cvc5", "--incremental", "--lang=smt2", "--tlimit-per=" + strconv.Itoa(6*s.Timeout[2])}}
 	}
@@ -210,7 +216,7 @@ func (s *Solver) getProc(stage int) *proc {
 	if err := p.start(); err != nil {
 		p.dead = true
 	}
-	if stage == 1 || stage == 2 || stage == 5 {
+	if stage == 1 || stage == 2 || stage == 5 || stage == 7 || stage == 8 {
 		p.send("(set-logic ALL)\n")
 	}
 	s.procs[stage] = p
@@ -353,15 +359,19 @@ func (s *Solver) Check(assertions []*Term, vars []*Term, wantModel bool) (Result
 		if r != Unknown {
 			s.St.BySolver[p.name]++
 			if s.Diff {
-				// cross-check with another back end
-				alt := 2
-				if stage == 2 {
-					alt = 0
-				}
-				if stage == 0 && noFP {
-					alt = 1
+				// cross-check with a different back end under a short limit (an undecided cross-check is skipped;
+				// with the normal limits a thorough run spent hours waiting for cvc5 on multiply kernels)
+				alt := 6 // z3, 3 s
+				if stage == 0 || stage == 3 {
+					alt = 7 // cvc5, 3 s
+					if noFP && s.hardArith(assertions) {
+						alt = 8 // cvc5 bv-as-int, 3 s
+					}
 				}
 				r2, _, _ := s.checkOn(s.getProc(alt), assertions, nil, false)
+				if r2 != Unknown {
+					s.St.BySolver["crosscheck-"+s.procs[alt].name]++
+				}
 				if r2 != Unknown && r2 != r {
 					return Unknown, nil, fmt.Sprintf("SOLVER-DISAGREEMENT %s=%v %s=%v", p.name, r, s.procs[alt].name, r2)
 				}
